@@ -121,17 +121,26 @@ class AdjGen:
             rest = [n for n in NAMES if n != k and self.rng.random() < 0.4]
             s1 = int(self.rng.integers(1, 3))
             s2 = int(self.rng.integers(1, 3))
+            repeated = self.rng.random() < 0.3
+            if repeated:
+                s1 = s2 = 1      # so that the total size (2 or 3) is the size of a pool name other factors can share
             self.leaves.pop()  # the unused fresh leaf
             a = self.new_leaf([k] + rest, dict(NAMES, **{k: s1}))
             b = self.new_leaf([k] + rest, dict(NAMES, **{k: s2}))
             self.features.add("cat")
             self.counter += 1
             # the concatenated name is fresh, or a pool name of the total size that other factors share
-            shared = [n for n in NAMES if NAMES[n] == s1 + s2 and n not in rest and n != k]
-            if shared and self.rng.random() < 0.6:
+            parts = (a, b)
+            if repeated:
+                # the same leaf occurs twice among the parts
+                parts = (a, b, a) if self.rng.random() < 0.5 else (a, a)
+                self.features.add("cat-repeated-part")
+            total = sum(p[1].shape[p[2].index(k)] for p in parts)
+            shared = [n for n in NAMES if NAMES[n] == total and n not in rest and n != k]
+            if shared and self.rng.random() < (0.9 if repeated else 0.6):
                 self.features.add("cat-shared-name")
-                return ("cat", self.choice(shared), (a, b), k)
-            return ("cat", "c%d" % self.counter, (a, b), k)
+                return ("cat", self.choice(shared), parts, k)
+            return ("cat", "c%d" % self.counter, parts, k)
         return t
 
     def expr(self, depth):
@@ -345,56 +354,79 @@ def _safe(thunk):
         return False
 
 
-def diagonal_renames(P, arr):
-    """(key, kept name) pairs of substitutions applied directly to the leaf `arr` whose value is a variable named like another input
-    that the leaf keeps: x[a,b](a='b') ties two dims of the leaf (a diagonal)"""
-    out = []
+def occurrence_ties(ir, arr, path=()):
+    """{path: (ia, ib)} for the occurrences of the leaf that sit directly under a diagonal renaming (paths as in `occurrences`)"""
+    k = ir[0]
+    if not contains_leaf(ir, arr):
+        return {}
+    if k == "ten":
+        return {}
+    if k in ("sub", "cat") and all(c[0] == "ten" for c in ([ir[1]] if k == "sub" else ir[2])):
+        out = {}
+        if k == "sub" and ir[1][1] is arr:
+            names = list(ir[1][2])
+            keys = [kk for kk, v in ir[2]]
+            ties = [(names.index(kk), names.index(v[1])) for kk, v in ir[2] if v[0] == "var" and v[1] in names and v[1] not in keys and kk in names]
+            if len(ties) == 1:
+                out[path + (0,)] = ties[0]
+        return out
+    if k == "bin":
+        out = occurrence_ties(ir[3], arr, path + (0,))
+        out.update(occurrence_ties(ir[4], arr, path + (1,)))
+        return out
+    if k == "red":
+        return occurrence_ties(ir[2], arr, path + (0,))
+    if k == "sub":
+        return occurrence_ties(ir[1], arr, path + (0,))
+    return {}
 
-    def walk(ir):
-        if not isinstance(ir, tuple) or not ir or not isinstance(ir[0], str):
-            if isinstance(ir, tuple):
-                for c in ir:
-                    walk(c)
-            return
-        if ir[0] == "sub" and ir[1][0] == "ten" and ir[1][1] is arr:
-            names = ir[1][2]
-            keys = [k for k, v in ir[2]]
-            for k, v in ir[2]:
-                if v[0] == "var" and v[1] in names and v[1] not in keys and k in names:
-                    out.append((list(names).index(k), list(names).index(v[1])))
-        for c in ir[1:]:
-            walk(c)
 
-    walk(P)
-    return out
-
-
-def diagonal_model_matches(P, arr, names, table, sr, on_diagonal_ok=None):
-    """known mechanism: when the adjoint handed down to a diagonal renaming x(a='b') is a constant (a Number), the renaming shortcut of
-    eager_scatter_number returns it unchanged, so the leaf's adjoint is the diagonal value broadcast along `a` instead of being the
-    sum-unit off the diagonal. The key is only assigned when the returned adjoint equals that model at every index."""
-    ties = diagonal_renames(P, arr)
-    if len(ties) != 1 or not table:
-        return False
-    ia, ib = ties[0]      # positions of the tied dims in the leaf's array (names in P may have been uniquified)
-    unit = 0.0 if sr[0] == "add" else -np.inf
-    seen_off = False
-    for x, (got, want) in table.items():
-        xd = list(x)
-        xd[ia] = x[ib]
-        gd, wd = table.get(tuple(xd), (None, None))
-        if gd is None:
-            return False
-        if x[ia] == x[ib]:
-            if on_diagonal_ok is None and not close(got, want, rtol=1e-6):
-                return False
-        else:
-            seen_off = True
-            if not (want == unit) or not close(got, gd, rtol=1e-6):
-                return False
-    if on_diagonal_ok is not None and not on_diagonal_ok(lambda x: x[ia] == x[ib]):
-        return False
-    return seen_off
+def general_model_matches(P, arr, sr, adj, lnames, value_at):
+    """The two recorded adjoint mechanisms combined per occurrence of the leaf: every occurrence's contribution is divided by its lost
+    multiplicity (see `occurrences`), and an occurrence under a diagonal renaming x(a='b') may have its contribution broadcast along
+    `a` (constant incoming adjoint). Returns the set of mechanisms of a combination that reproduces the returned adjoint at every
+    index (and in which at least one mechanism is active), else None."""
+    occs = occurrences(P, arr, sr)
+    if not occs or any(pth is None for pth, m in occs):
+        return None
+    ties = occurrence_ties(P, arr)
+    tied = [pth for pth, m in occs if pth in ties]
+    if not tied:
+        return None
+    sum_op, prod_op = sr
+    points = list(itertools.product(*[range(z) for z in arr.shape]))
+    got = {x: value_at(adj, {k: v for k, v in zip(lnames, x) if k in adj.inputs})[0] for x in points}
+    contrib = {}
+    for pth, m in occs:
+        for x in points:
+            with np.errstate(all="ignore"):
+                d = deriv(P, {}, arr, x, sr, only=pth)
+                contrib[pth, x] = d / m if prod_op == "mul" else d - np.log(m)
+    for flags in itertools.product((True, False), repeat=len(tied)):
+        if not any(flags):
+            continue
+        bc = dict(zip(tied, flags))
+        ok = True
+        for x in points:
+            total = UNIT[sum_op]
+            for pth, m in occs:
+                xx = x
+                if bc.get(pth):
+                    ia, ib = ties[pth]
+                    xx = list(x)
+                    xx[ia] = x[ib]
+                    xx = tuple(xx)
+                with np.errstate(all="ignore"):
+                    total = BIN[sum_op](total, contrib[pth, xx])
+            if not close(got[x], total, rtol=1e-6):
+                ok = False
+                break
+        if ok:
+            mech = {"diagonal-rename-constant-incoming"}
+            if any(m > 1 for pth, m in occs):
+                mech.add("multiplicity-of-unmentioned-reduced-vars")
+            return mech
+    return None
 
 
 def model_matches(P, arr, sr, adj, lnames, value_at, only_points=None):
@@ -557,7 +589,6 @@ def run_case(P, sr, g, res, riders, rng):
             bad = None
             n = 0
             ratios = []
-            table = {}
             try:
                 for x in itertools.product(*[range(s) for s in arr.shape]):
                     # root point: every free input of the program; names shared with the leaf are tied to the leaf index
@@ -572,7 +603,6 @@ def run_case(P, sr, g, res, riders, rng):
                         aenv.update(zip(lnames, x))
                         got = value_at(adj, {k: aenv[k] for k in adj.inputs})[0]
                         n += 1
-                        table[x] = (got, want)
                         if np.isnan(want):
                             continue
                         with np.errstate(all="ignore"):
@@ -605,11 +635,9 @@ def run_case(P, sr, g, res, riders, rng):
                 bn = bound_names(P)
                 if m:
                     key = "multiplicity-of-unmentioned-reduced-vars"
-                elif diagonal_model_matches(P, arr, names, table, sr):
-                    key = "diagonal-rename-constant-incoming"
-                elif diagonal_model_matches(P, arr, names, table, sr, on_diagonal_ok=lambda diag: _safe(lambda: model_matches(E, arr, sr, adj, lnames, value_at, only_points=diag))):
-                    # both known mechanisms at once: off the diagonal the constant is broadcast, on the diagonal a multiplicity is lost
-                    key = "diagonal-rename-constant-incoming+multiplicity-of-unmentioned-reduced-vars"
+                elif _safe(lambda: general_model_matches(E, arr, sr, adj, lnames, value_at)):
+                    mech = general_model_matches(E, arr, sr, adj, lnames, value_at)
+                    key = "diagonal-rename-constant-incoming" + ("+multiplicity-of-unmentioned-reduced-vars" if len(mech) > 1 else "")
                 elif len(bn) != len(set(bn)) or any(b in p_all_free for b in bn):
                     key = "same-user-name-bound-twice"
                 res.violation("adjoint:%s" % key, "[%s %s,%s] %s | %s" % (route, sr[0], sr[1], bad, show(P)[:400]), case=case)
